@@ -327,6 +327,19 @@ def main(out_path: str):
     # ---- C18: literals of the validator / CLI state machine (pulled from the function ASTs)
     parts += c18_tables()
     parts += [list_s("selectQuestionFields", question.SELECT_QUESTION_FIELDS), list_s("optionFields", question.OPTION_FIELDS)]  # C08: header_columns of the survey / choices sheets
+    # C14: required-header sets passed to dealias_and_group_headers (literals inside workbook_to_json)
+    req = {}
+    for node in ast.walk(ast.parse(inspect.getsource(x2j))):
+        if isinstance(node, ast.Call):
+            kws = {k.arg: k.value for k in node.keywords if k.arg}
+            if "headers_required" in kws and isinstance(kws["headers_required"], ast.Set | ast.List | ast.Tuple):
+                sheet = kws.get("sheet_name")
+                sheet = getattr(constants, sheet.attr) if isinstance(sheet, ast.Attribute) else f"call@{node.lineno}"
+                req[str(sheet)] = sorted(
+                    getattr(constants, e.attr) if isinstance(e, ast.Attribute) else str(ast.literal_eval(e))
+                    for e in kws["headers_required"].elts
+                )
+    parts.append(dict_sl("requiredHeaders", req, "headers_required sets in xls2json.workbook_to_json (sorted)"))
     parts.append("end Pyxv.Gen\n")
     # several slices may ask for the same table: keep the first definition of each name
     seen, uniq = set(), []
